@@ -312,6 +312,12 @@ func (h *vHandler) verifAtomicNote(ev vEvent) {
 		if ev.kind == "complete" {
 			h.completes++
 			verifrt.Assert(h.completes == 1, "exactly one completion is reported")
+			// once a step shows as finished it owes the workflow nothing: the run loop counts it as idle
+			for st, outs := range h.declared {
+				if len(outs) > 0 {
+					verifrt.Assert(h.finished[st] || h.failed[st], "when the completion is reported every other stage with outputs is already finished or declared impossible: "+st)
+				}
+			}
 		} else {
 			verifrt.Assert(h.completes == 0, "no stage change after the completion")
 		}
